@@ -6,6 +6,7 @@ import xml_rules
 import width_rules
 import codec_rules
 import page_rules
+import pcw_rules
 
 TECHNIQUE = "call-graph reachability from the writer API against a nondeterminism deny-list (with positive controls), writer/reader agreement of the prototype type-attribute vocabulary with explicit values, prototype order dataflow, plus the shared width / stored-form / escaping clauses a lossless copy depends on"
 EXPLANATION = (
@@ -40,6 +41,7 @@ def run(ctx):
             codec_rules.append_shape(ctx, prog, "R4")
             xml_rules.escaping_gate(ctx, prog, "R4")
             header_rules.publication_order(ctx, prog, "R4")
+            pcw_rules.data_offset_provenance(ctx, prog, "R4")
             page_rules.read_current_page_shape(ctx, prog, "R4")
             xml_rules.inverse_maps(ctx, prog, "R5", "R5", "R5")
             xml_rules.string_values_unchanged(ctx, prog, "R5")
